@@ -121,7 +121,7 @@ def probe_src(ws, names, rng, local_defs=None, kinds=None):
 
 
 def gen_workspace(root, rng, depth=None, n_names=None, venv=None, collisions=True, allow_imports=True,
-                  allow_redefine=True, allow_multiline=True, probe_kinds=None):
+                  allow_redefine=True, allow_multiline=True, probe_kinds=None, module_pkg_twins=False):
     ws = WS(root)
     depth = depth if depth is not None else rng.randint(1, 4)
     n_names = n_names or rng.randint(2, 4)
@@ -180,6 +180,12 @@ def gen_workspace(root, rng, depth=None, n_names=None, venv=None, collisions=Tru
                 else:
                     s, _ = fixture_src(ws, n, rng)
                     ws.files[modrel] = HEADER + s
+                if module_pkg_twins and rng.random() < 0.4:
+                    # a package with the same name next to the module (legal; which one an import
+                    # means must not depend on what happens to be cached)
+                    s2, _ = fixture_src(ws, f"pk_{n}", rng)
+                    ws.files[os.path.join(d, mod, "__init__.py")] = HEADER + s2
+                    ws.features.add(("module_and_package_same_name",))
                 if role == "star_import":
                     imports.append(f"from .{mod} import *\n")
                 elif role == "star_abs":
@@ -284,3 +290,28 @@ def add_venv(ws, rng, names, third_party=True, ws_plugin=None, builtin=True):
         ws.files[f"{sp}/__editable__.wsplug-0.1.pth"] = ws.root + "\n"
         ws.plugin_rel.add("wsplug/plugin_mod.py")
         ws.features.add(("workspace_plugin",))
+
+
+def gen_import_cycle_ws(root, rng, n=None):
+    """conftest -> m0 -> m1 -> ... -> m0 : mutually importing fixture modules"""
+    ws = WS(root)
+    n = n or rng.randint(2, 4)
+    names = []
+    for i in range(n):
+        nm = f"cyc_{i}"
+        names.append(nm)
+        s, _ = fixture_src(ws, nm, rng)
+        nxt = (i + 1) % n
+        form = rng.choice([f"from .m{nxt} import *\n", f"from m{nxt} import *\n"])
+        ws.files[f"pkg/m{i}.py"] = form + HEADER + s
+    entry = rng.randrange(n)
+    ws.files["pkg/conftest.py"] = f"from .m{entry} import *\n"
+    ws.files["pkg/test_probe.py"] = probe_src(ws, names, rng, None, ["param", "usefixtures"])
+    if rng.random() < 0.5:
+        # a second conftest below entering the cycle elsewhere
+        e2 = rng.randrange(n)
+        ws.files["pkg/sub/conftest.py"] = f"from ..m{e2} import *\n"
+        ws.files["pkg/sub/test_probe.py"] = probe_src(ws, names, rng, None, ["param"])
+    ws.spec = {"depth": 1, "names": names, "levels": [], "import_cycle": n}
+    ws.features.add(("import_cycle", n))
+    return ws
